@@ -192,3 +192,7 @@ def _run(chk, replay):
     # the command line layer (spec/Cli.tla): every subset of the tool's options typed to the real main(), API intercepted
     from harness import cli
     cli.phase(chk, "pestle")
+    # hierarchies whose levels refine by 4, or by different ratios from one jump to the next (Refine.tla), on an even blocking
+    # factor: a cell is covered when the cells Fac(l+1) / Fac(l) times finer over it are
+    from harness import refine
+    refine.phase(chk, "integral")
